@@ -309,9 +309,16 @@ def gen_case(rng, params):
     prompt = bytes(params["bashPrompt" if kind == "bash" else "ashPrompt"])
     bl = bytes(params["bashBlacklist" if kind == "bash" else "ashBlacklist"])
     chunk = rng.choice([1, 3, 64, params["readChunkSize"], params["readChunkSize"]])
-    steps = gen_steps(rng, prompt, chunk >= 64)
-    args = [] if rng.random() < 0.85 else [rng.choice([b"x y", b"a'b", b"bad\x03arg", b""])]
-    ops = gen_ops(rng, steps, prompt, bl)
+    while True:
+        steps = gen_steps(rng, prompt, chunk >= 64)
+        args = [] if rng.random() < 0.85 else [rng.choice([b"x y", b"a'b", b"bad\x03arg", b""])]
+        ops = gen_ops(rng, steps, prompt, bl)
+        # the domain: the prompt itself is in nothing the command prints or the tty echoes
+        # (prompt prefixes from neighbouring parts may join up to it)
+        printed = cook(b"".join(unhx(s[1:]) for s in steps if s[0] == "P"))
+        typed = b"".join(unhx(o.split(":")[1]) for o in ops if o[0] in "sl" and o[1] == ":")
+        if prompt not in printed and prompt not in typed and prompt[:-1] not in typed:
+            break
     return " ".join([kind, str(chunk), "P", lst(hx(a) for a in args), lst(steps), gen_next(rng, prompt)] + ops)
 
 
